@@ -317,3 +317,23 @@ Proof.
   - exfalso. apply Hne. reflexivity.
   - vm_compute in Hw. inversion Hw. reflexivity.
 Qed.
+
+From Coq Require Import Floats.
+
+(* ... and a concrete binary64 matrix (d01 = 3, d02 = 0.5, d12 = 2; centroid, which squares the
+   entries: 9, 0.25, 4) meets the hypotheses of C07_primitive_first_step_f64 *)
+Example C07_first_step_f64_hypotheses_satisfiable :
+  let m := [3%float; 0.5%float; 2%float] in
+  (exists r, primitive_with (kops_of F64 Centroid) Release Centroid (st_new PrimFloat.float) (d_new PrimFloat.float 0) m 3 = Ok r)
+  /\ exists M0, prologue Release (square_all (kops_of F64 Centroid) m) 3 = Ok M0
+       /\ 0 < 2 /\ 2 < m_obs M0 /\ UpdateSpec.wcell M0 0 2 = Some 0.25%float
+       /\ (forall x y w, x < y -> y < m_obs M0 -> (x, y) <> (0, 2) -> UpdateSpec.wcell M0 x y = Some w -> PrimFloat.ltb 0.25%float w = true).
+Proof.
+  cbv zeta. split; [eexists; vm_compute; reflexivity|].
+  eexists. split; [vm_compute; reflexivity|]. cbn [m_obs]. split; [lia|]. split; [lia|]. split; [vm_compute; reflexivity|].
+  intros x y w Hxy Hy Hne Hw.
+  destruct x as [|[|x]]; destruct y as [|[|[|y]]]; try lia.
+  - vm_compute in Hw. inversion Hw. vm_compute. reflexivity.
+  - exfalso. apply Hne. reflexivity.
+  - vm_compute in Hw. inversion Hw. vm_compute. reflexivity.
+Qed.
